@@ -245,6 +245,20 @@ def hidden_state(ctx):
     ctx.ob('C14.OWN.no_hidden_state', 'RF-OWN', not bad, adt[0]['path'], '%s:%s' % (adt[0]['file'], adt[0]['line']),
            'Directory fields %s: only unit-valued locks besides storage / vrf / config' % names if not bad else
            'Directory holds mutable state outside storage: %s' % bad)
+    # a clone is the same directory: every field is copied from self (storage, key material, configuration and both
+    # locks) — a freshly constructed field makes results, or the exclusion between clones, differ (C12-r1-b, C13-r1-a)
+    cl = prog.find('<Directory as Clone>::clone')
+    okc, det = False, 'no Clone impl for Directory found'
+    if cl:
+        e = result_expr(cl[0])
+        if e[0] == 'agg':
+            fresh = [f for f, v in e[3] if access_path(v) != 'self.' + f and not (v[0] == 'agg' and v[1] == 'PhantomData')]
+            okc, det = not fresh, ('clone() copies every field from self' if not fresh else
+                                   'clone() builds fresh value(s) for %s instead of sharing self\'s' % fresh)
+        else:
+            det = 'clone() does not build a Directory literal'
+    ctx.ob('C14.OWN.clone_shares_all', 'RF-SIB', okc, cl[0].path if cl else 'akd::directory::Directory', '%s:%s' % (cl[0].file, cl[0].line) if cl else None,
+           det, key='RF-SIB|clone_shares_all')
     ro = [i for i in prog.impls if i.get('self') == 'ReadOnlyDirectory' and not i.get('trait')]
     meths = [it['name'] for i in ro for it in i['items'] if it['fn']]
     bad = [m for m in meths if m in ('publish', 'tombstone', 'publish_malicious_update')]
